@@ -495,6 +495,24 @@ def run(ctx) -> None:
     d3.canon = ctx.canon
     with ctx.as_rule(C17_R3="C10.R7"):
         r3_no_hidden_acceptance_logic(ctx, d3, with_required=False)
+    # the typed array helper: its first argument is a size the definition's BoundedNat parameter accepts, on every completing path
+    aq = "hugr.std.collections.array.Array.__init__"
+    try:
+        afn, amod, _ = ctx.locate(aq)
+        bad = None
+        aps = [p_ for p_ in ctx.paths(aq) if p_.kind != "raise"]
+        for p_ in aps:
+            pos = [u(t) for t, k in p_.tests if k]
+            if not any("BoundedNatArg" in t_ or "BoundedNatParam" in t_ for t_ in pos):
+                bad = p_
+                break
+        ctx.check(bool(aps) and bad is None, "C10.R4", "hugr.std.collections.array.Array.__init__: size is a bounded natural or a nat variable", amod.path, afn.lineno,
+                  "the array type helper instantiates `array` with [size, element type]: the size must be a BoundedNatArg or a variable declared with a "
+                  "BoundedNatParam on every path that completes -- anything else does not fit the bundled definition's parameters"
+                  + (f" [completes on: {bad.describe()[:200]}]" if bad is not None else ""), afn)
+    except Exception as e_:
+        if type(e_).__name__ == "AnalysisError":
+            raise
     from .. import lints
     lints.arm(ctx)
 
